@@ -22,6 +22,7 @@ Proof.
   - destruct (gate v c s && allowed); reflexivity.
   - destruct (if newest then rev (heldq s) else heldq s); reflexivity.
   - apply pc_upd_cur.
+  - reflexivity.
 Qed.
 
 Ltac flush_cases :=
@@ -285,7 +286,8 @@ Proof.
         + destruct (ending s); exact H.
         + destruct (gate fixed c s && allowed); exact H.
         + destruct (if newest then rev (heldq s) else heldq s); exact H.
-        + rewrite bip_upd_cur. exact H. }
+        + rewrite bip_upd_cur. exact H.
+        + exact H. }
       split; [|exact B].
       assert (O : bstep c tt (OpObs (opcode s o) (bip (op_st fixed c s o))) = Some tt).
       { unfold bstep, bp_okb. destruct B as [B1 B2]. apply Z.leb_le in B1. apply Z.leb_le in B2. rewrite B1, B2. reflexivity. }
@@ -394,6 +396,7 @@ Proof.
   - destruct (gate v c s && allowed); [unfold Keep; cbn; intuition | apply Keep_refl].
   - destruct (if newest then rev (heldq s) else heldq s); [apply Keep_refl | unfold Keep; cbn; intuition].
   - apply Keep_upd_snd. reflexivity.
+  - apply Keep_refl.
 Qed.
 
 (* ------------------------------------------------------------------------------------------- *)
@@ -489,6 +492,7 @@ Proof.
   - destruct (gate v c s && allowed); reflexivity.
   - destruct (if newest then rev (heldq s) else heldq s); reflexivity.
   - unfold upd_cur. destruct (cur s); reflexivity.
+  - reflexivity.
 Qed.
 
 Lemma Inv_Keep s s' : Keep s s' -> pev s' = pev s -> Inv s -> Inv s'.
